@@ -10,6 +10,9 @@
 //	FDEPS a:x,y: task a also declares FILE dependencies "x", "y" (created, empty, in the project directory), first in
 //	its list when REP is even, last when odd: a file dependency, however it is spelled, is no business of the task graph.
 //
+//	BODYLESS i j: the i-th and j-th definitions (0-based, in TASKS order) have an EMPTY body — only used where a name is defined
+//	twice: a placeholder is a definition like any other.
+//
 // obs:   OUTCOME ok|duplicate|no-such-task|no-such-dependency|cycle|other|parse-error|panic|hang ; ORDER a b c ; RESULTS a b c
 //
 //	ORDER = task name of every shell.Runner call in call order, RESULTS = task names of the returned results.
@@ -21,6 +24,7 @@ import (
 	"math/bits"
 	"math/rand"
 	"os"
+	"strconv"
 	"strings"
 	"time"
 
@@ -137,7 +141,7 @@ func parseCase(c string) (defs []def, req []string, fail map[string]bool, vars [
 	return defs, listOf(r), fail, listOf(sec["VARS"]), true
 }
 
-func spokfileText(defs []def, vars []string, fdeps map[string][]string, filesFirst bool) string {
+func spokfileText(defs []def, vars []string, fdeps map[string][]string, filesFirst bool, bodyless map[int]bool) string {
 	var b strings.Builder
 	for _, v := range vars {
 		fmt.Fprintf(&b, "%s := \".\"\n", v)
@@ -145,7 +149,7 @@ func spokfileText(defs []def, vars []string, fdeps map[string][]string, filesFir
 	if len(vars) > 0 {
 		b.WriteString("\n")
 	}
-	for _, d := range defs {
+	for di, d := range defs {
 		var all []string
 		for _, f := range fdeps[d.name] {
 			all = append(all, `"`+f+`"`)
@@ -154,6 +158,10 @@ func spokfileText(defs []def, vars []string, fdeps map[string][]string, filesFir
 			all = append(all, d.deps...)
 		} else {
 			all = append(append([]string{}, d.deps...), all...)
+		}
+		if bodyless[di] {
+			fmt.Fprintf(&b, "task %s(%s) {}\n\n", d.name, strings.Join(all, ", "))
+			continue
 		}
 		fmt.Fprintf(&b, "task %s(%s) {\n    echo %s\n}\n\n", d.name, strings.Join(all, ", "), d.name)
 	}
@@ -204,8 +212,12 @@ func graphWork(c string) string {
 		return "BAD-CASE"
 	}
 	fdeps, filesFirst := fileDeps(c)
+	bodyless := map[int]bool{}
+	for _, x := range listOf(sections(c)["BODYLESS"]) {
+		bodyless[sup.Atoi(x, -1)] = true
+	}
 	res, _ := sup.WithWatchdog(20*time.Second, func() string {
-		tree, err := parser.New(spokfileText(defs, vars, fdeps, filesFirst)).Parse()
+		tree, err := parser.New(spokfileText(defs, vars, fdeps, filesFirst, bodyless)).Parse()
 		if err != nil {
 			return "OUTCOME parse-error ; ORDER - ; RESULTS -"
 		}
@@ -250,12 +262,21 @@ type tcase struct {
 	fail []string
 	vars []string
 	fdep []string // "task:file,file"
+	bodyless []int
 }
 
 func emit(w *bufio.Writer, t tcase, rep int) {
 	var ds []string
 	for _, d := range t.defs {
 		ds = append(ds, d.name+":"+strings.Join(d.deps, ","))
+	}
+	if len(t.bodyless) > 0 {
+		var bl []string
+		for _, i := range t.bodyless {
+			bl = append(bl, strconv.Itoa(i))
+		}
+		fmt.Fprintf(w, "TASKS %s ; REQ %s ; FAIL %s ; REP %d ; VARS %s ; BODYLESS %s\n", showList(ds), showList(t.req), showList(t.fail), rep, showList(t.vars), showList(bl))
+		return
 	}
 	if len(t.fdep) > 0 {
 		fmt.Fprintf(w, "TASKS %s ; REQ %s ; FAIL %s ; REP %d ; VARS %s ; FDEPS %s\n", showList(ds), showList(t.req), showList(t.fail), rep, showList(t.vars), showList(t.fdep))
@@ -429,6 +450,9 @@ func genBlock(w *bufio.Writer, rng *rand.Rand, b block) {
 			for _, r := range small {
 				emit(w, tcase{defs: append(cloneDefs(defs), dup), req: r}, 0)
 				emit(w, tcase{defs: append([]def{dup}, defs...), req: r}, 1)
+				// … one of the two definitions being an empty placeholder `task x() {}`
+				emit(w, tcase{defs: append([]def{{name: taskNames[i]}}, defs...), req: r, bodyless: []int{0}}, 0)
+				emit(w, tcase{defs: append(cloneDefs(defs), def{name: taskNames[i]}), req: r, bodyless: []int{len(defs)}}, 0)
 			}
 		}
 	}
